@@ -54,7 +54,7 @@ def delta_vals(x: np.ndarray, descending_vals: bool = True) -> np.ndarray:
         if descending_vals else
         x[1:] - x[:-1]
     )
-    deltas[np.abs(deltas) <= tol] = 0.0
+    deltas[np.abs(deltas) < tol / 2] = 0.0
     return deltas
 
 
